@@ -23,6 +23,9 @@ import (
 type Person struct {
 	P   string `json:"p"`
 	Who int    `json:"who"`
+	// Like: a different person (its own who) who is called like person Like and born a year later, without a unique
+	// identifier: similar enough to be trusted by pointer, but never the best match of anybody who is there
+	Like int `json:"like"`
 }
 
 type Family struct {
@@ -55,25 +58,38 @@ func text(d Doc, side string) string {
 	var b strings.Builder
 	b.WriteString("0 HEAD\n")
 	for i, x := range d.People {
-		w := x.Who % len(given)
-		w2 := (x.Who / len(given)) % len(sur)
+		nameOf, year := x.Who, 1600+13*x.Who
+		if x.Like != 0 {
+			nameOf, year = x.Like, 1600+13*x.Like+1
+		}
+		w := nameOf % len(given)
+		w2 := (nameOf / len(given)) % len(sur)
 		// facts: a flat one (OCCU), one below an event (PLAC below BIRT is the same town on both sides, so the
 		// two PLAC nodes are equal and merge) and deep ones below nodes that are EQUAL on both sides (DATE, PLAC)
 		fmt.Fprintf(&b, "0 @%s@ INDI\n1 NAME %s /%s/\n1 BIRT\n2 DATE %d %s %d\n3 NOTE deepdate:%s:%d\n2 PLAC town%d\n3 NOTE deepplace:%s:%d\n2 NOTE place:%s:%d\n1 NOTE mark:%s:%d\n1 OCCU fact:%s:%d\n",
-			x.P, given[w], sur[(w+w2)%len(sur)], 1+x.Who%27, []string{"Jan", "Mar", "May", "Jul", "Sep", "Nov"}[x.Who%6], 1600+13*x.Who,
+			x.P, given[w], sur[(w+w2)%len(sur)], 1+nameOf%27, []string{"Jan", "Mar", "May", "Jul", "Sep", "Nov"}[nameOf%6], year,
 			side, i+1, x.Who, side, i+1, side, i+1, side, i+1, side, i+1)
-		if x.Who%2 == 0 { // half of the people carry a unique identifier (the same on both sides)
+		if x.Who%2 == 0 && x.Like == 0 { // half of the people carry a unique identifier (the same on both sides)
 			fmt.Fprintf(&b, "1 _UID %032X\n", 0xFEED0000+x.Who)
 		}
+		// most people are fully dated (the same death date on both sides), so that some pairs are as similar as two
+		// records can be while each side still knows things the other does not
+		ddate := ""
+		if x.Who%7 != 6 {
+			ddate = fmt.Sprintf("2 DATE %d %s %d\n", 1+x.Who%27, []string{"Feb", "Apr", "Jun", "Aug", "Oct", "Dec"}[x.Who%6], 1660+13*x.Who)
+		}
 		if x.Who%5 == 1 && side == "R" { // the right side knows the event but no detail: a leaf where the left has a subtree
-			fmt.Fprintf(&b, "1 DEAT\n2 PLAC town%d\n", x.Who)
+			fmt.Fprintf(&b, "1 DEAT\n%s2 PLAC town%d\n", ddate, x.Who)
 		} else if x.Who%5 == 1 {
-			fmt.Fprintf(&b, "1 DEAT\n2 PLAC town%d\n3 MAP\n4 LATI deeplati:%s:%d\n", x.Who, side, i+1)
+			fmt.Fprintf(&b, "1 DEAT\n%s2 PLAC town%d\n3 MAP\n4 LATI deeplati:%s:%d\n", ddate, x.Who, side, i+1)
 		}
 		if x.Who%5 == 2 && side == "L" { // and the other way round
-			fmt.Fprintf(&b, "1 DEAT\n2 PLAC town%d\n", x.Who)
+			fmt.Fprintf(&b, "1 DEAT\n%s2 PLAC town%d\n", ddate, x.Who)
 		} else if x.Who%5 == 2 {
-			fmt.Fprintf(&b, "1 DEAT\n2 PLAC town%d\n3 MAP\n4 LATI deeplati:%s:%d\n", x.Who, side, i+1)
+			fmt.Fprintf(&b, "1 DEAT\n%s2 PLAC town%d\n3 MAP\n4 LATI deeplati:%s:%d\n", ddate, x.Who, side, i+1)
+		}
+		if x.Who%5 != 1 && x.Who%5 != 2 && ddate != "" {
+			fmt.Fprintf(&b, "1 DEAT\n%s", ddate)
 		}
 		for _, f := range d.Fams {
 			if f.Husb == x.P || f.Wife == x.P {
@@ -424,6 +440,28 @@ func Gen(w io.Writer, seed int64, n int) error {
 			}
 			if rng.Intn(5) == 0 {
 				right.Fams = []Family{}
+			}
+			// a namesake on the left under the pointer that the right copy of somebody with a unique identifier now has
+			if rng.Intn(3) == 0 {
+				for _, rp := range right.People {
+					if rp.Who%2 != 0 || rp.Who >= 300 {
+						continue
+					}
+					taken, there, samePtr := false, false, false
+					for _, lp := range left.People {
+						if lp.P == rp.P {
+							taken = true
+						}
+						if lp.Who == rp.Who {
+							there = true
+							samePtr = lp.P == rp.P
+						}
+					}
+					if there && !samePtr && !taken {
+						left.People = append(left.People, Person{P: rp.P, Who: 500 + rp.Who, Like: rp.Who})
+						break
+					}
+				}
 			}
 		}
 		c := Case{Left: left, Right: right}
